@@ -35,7 +35,8 @@ func (c04) Assumptions() []string {
 
 func customOpts() *jsonschema.ForOptions {
 	return &jsonschema.ForOptions{TypeSchemas: map[reflect.Type]*jsonschema.Schema{
-		reflect.TypeFor[typecorpus.Custom](): {Types: []string{"integer", "string"}},
+		// (a list built with append: spare capacity behind it, as after decoding or growing a slice)
+		reflect.TypeFor[typecorpus.Custom](): {Types: append(make([]string, 0, 4), "string", "integer")},
 	}}
 }
 
